@@ -8,15 +8,23 @@ WT=/tmp/wt-confirm
 export GOFLAGS=-mod=mod GOPROXY=off; unset GOSUMDB GOTOOLCHAIN
 if [ ! -d $WT ]; then git -C /repo worktree add -q --detach $WT HEAD; fi
 git -C $WT checkout -q --detach $(git -C /repo rev-parse HEAD); git -C $WT checkout -q -- .; git -C $WT clean -fdq
-git -C $WT apply "$DIFF" || { echo "VERDICT patch-does-not-apply"; exit 1; }
+git -C $WT apply "$DIFF" 2>/dev/null || git -C $WT apply --3way "$DIFF" || { echo "VERDICT patch-does-not-apply"; exit 1; }
+git -C $WT reset -q 2>/dev/null
 (cd $WT && go build ./... ) || { echo "VERDICT does-not-build"; exit 1; }
 S1=$(cd $WT && go test -vet=off -count=1 ./... 2>&1 | grep -c "^FAIL\|^---  *FAIL\|^--- FAIL")
 if [ "$S1" != 0 ]; then S1=$(cd $WT && go test -vet=off -count=1 ./... 2>&1 | grep -c "^FAIL\|^---  *FAIL\|^--- FAIL"); fi
 S2=$(cd $WT/internal/integration && env -u GOFLAGS GOPROXY=off go test -mod=mod -vet=off -count=1 ./... 2>&1 | grep "^--- FAIL" | grep -vc TestCancelRepeatedPooled)
 cp "$DEMO" $WT/$PKG/zz_demo_seed_test.go
-D1=$(cd $WT && timeout 300 go test -vet=off -count=1 -run "$TEST" ./$PKG/ 2>&1 | tail -3 | tr '\n' ' ')
+rundemo() {
+  if [ "$PKG" = internal/integration ]; then
+    (cd $WT/internal/integration && env -u GOFLAGS GOPROXY=off timeout 300 go test -mod=mod -vet=off -count=1 -run "$TEST" . 2>&1 | tail -3 | tr '\n' ' ')
+  else
+    (cd $WT && timeout 300 go test -vet=off -count=1 -run "$TEST" ./$PKG/ 2>&1 | tail -3 | tr '\n' ' ')
+  fi
+}
+D1=$(rundemo)
 git -C $WT checkout -q -- .
-D0=$(cd $WT && timeout 300 go test -vet=off -count=1 -run "$TEST" ./$PKG/ 2>&1 | tail -3 | tr '\n' ' ')
+D0=$(rundemo)
 rm -f $WT/$PKG/zz_demo_seed_test.go; git -C $WT clean -fdq
 echo "suite-fails-root=$S1 suite-fails-integration=$S2"
 echo "demo WITH change:    ${D1:0:200}"
